@@ -226,6 +226,8 @@ def edit_histories(chk, rng):
         [('insert-rotator', 2, 90)], [('insert-rotator', 2, 90), ('drop', 2)], [('prepend-transport',), ('insert-rotator', 3, 90)],
         [('prepend-transport',)], [('drop', 1), ('insert-rotator', 1, 90)], [('read-rotation',), ('insert-rotator', 2, 90)],
         [('insert-rotator', 4, 90), ('set', 2, 90), ('del', 2)],
+        # a turn by one degree is a turn by one degree, however the number is spelled (round -> oval tolerates any angle)
+        [('set', 4, 1)], [('set', 4, 1.0), ('set', 4, True)], [('set', 4, np.float64(1.0))], [('set', 4, np.int64(1)), ('del', 4)],
     ]
     with RollPass.Profile.flow_stress(flow_stress):
         for script in scripts:
